@@ -141,7 +141,7 @@ def main():
             "enable": "RUSTFLAGS=\"--cfg typify_verif\" on every cargo invocation of the harness (vgen, stage-2, "
                       "cargo-typify, macro crates)",
             "baseline_off_cmd": "cd /repo && cargo test --workspace --no-fail-fast --offline",
-            "source_commits": ["1a29ffe"],
+            "source_commits": ["1a29ffe", "c959929"],
             "add_only": True,
         },
         "engines": [{"name": "vgen+stage2", "path": "/verif/vgen, /verif/rt, /verif/py",
